@@ -281,7 +281,7 @@ but no other interpretation is applied
             #
             # Is this the start of a logical condition?
             #
-            mat = re.search(r"^(?:if\s*\((.*)\)\s*{\s*|}\s*(?:(else(?:\s*if\s*\((.*)\))?)\s*{)?)$", \
+            mat = re.search(r"^(?:if\s*\((.*)\)\s*{\s*|}\s*(?:(else(?:\s*if\s*\((.*)\))?)\s*{\s*)?)$", \
                                 line, re.IGNORECASE)
             if mat:
                 if block:
